@@ -83,6 +83,38 @@ Theorem C13_per_ca_route_precedence : forall tb (ro : role) q r s,
   authorize spec_routes tb (AuthRole ro) q <> Served.
 Proof. exact per_ca_route_precedence. Qed.
 
+(** A role limited to CAs ([cas = [...]] in the configuration file) holds its permissions on CA [h] iff [h] is
+    literally - same string, same case - in its list; every route under /api/v1/cas/{ca} refuses it for any other
+    {ca}; the listings show it exactly the CAs of its list. *)
+Theorem C13_scoped_role_exact : forall s cas p h,
+  is_allowed (with_resources s cas) p (Some h) = true <-> In h cas /\ has s p = true.
+Proof. exact scoped_role_exact. Qed.
+
+Theorem C13_scoped_role_case_sensitive :
+  let ro := with_resources ANY ["alice"]%string in
+  is_allowed ro CaRead (Some "alice"%string) = true
+  /\ is_allowed ro CaRead (Some "ALICE"%string) = false
+  /\ is_allowed ro CaRead (Some "Alice"%string) = false
+  /\ is_allowed ro CaRead (Some "alice2"%string) = false
+  /\ is_allowed ro CaRead (Some "alic"%string) = false
+  /\ listing_of (AuthRole ro) (F CaRead FEntry) ["ALICE"; "Alice"; "alice"; "alice2"]%string = ["alice"]%string
+  /\ authorize spec_routes true (AuthRole ro) (mkReq MDELETE ["api"; "v1"; "cas"; "alice"]%string) = Served
+  /\ authorize spec_routes true (AuthRole ro) (mkReq MDELETE ["api"; "v1"; "cas"; "ALICE"]%string) = Forbidden
+  /\ authorize spec_routes true (AuthRole ro) (mkReq MGET ["api"; "v1"; "cas"; "alice2"; "routes"]%string) = Forbidden.
+Proof. exact scoped_role_case_sensitive. Qed.
+
+Theorem C13_scoped_role_route_refused : forall tb s cas q r,
+  find_route spec_routes q = Some r -> per_ca r = true ->
+  ~ In (nth 3 (q_path q) ""%string) cas ->
+  authorize spec_routes tb (AuthRole (with_resources s cas)) q = Forbidden \/
+  authorize spec_routes tb (AuthRole (with_resources s cas)) q = NotFound.
+Proof. exact scoped_role_route_refused. Qed.
+
+Theorem C13_scoped_listing_exact : forall s cas all h,
+  In h (listing_of (AuthRole (with_resources s cas)) (F CaRead FEntry) all)
+  <-> In h all /\ In h cas /\ has s CaRead = true.
+Proof. exact scoped_listing_exact. Qed.
+
 (** Login permission for everything under the versioned API. *)
 Theorem C13_login_gate : forall (tb : bool) (a : auth) (m : meth) (rest : list string),
   authorize spec_routes tb a (mkReq m ("api" :: "v1" :: rest)%string) = Served ->
@@ -95,6 +127,18 @@ Theorem C13_public_exactly : forall (tb : bool) (q : request) (r : route),
   (authorize spec_routes tb (AuthRole role_anonymous) q = Served <->
    In (path_root (q_path q)) public_roots /\ (path_root (q_path q) = "testbed"%string -> tb = true)).
 Proof. exact public_exactly. Qed.
+
+(** The /testbed routes are served iff the instance is in testbed mode (the [testbed] section is present), to every
+    caller and whatever [ta_support_enabled] says. *)
+Theorem C13_testbed_served_is_testbed_mode :
+  (forall cfg, testbed_served cfg = testbed_on cfg) /\ (forall ta tb, testbed_served (mkCfg ta tb) = tb).
+Proof. exact testbed_served_is_testbed_mode. Qed.
+
+Theorem C13_testbed_routes_iff_testbed_mode : forall cfg a q r,
+  find_route spec_routes q = Some r -> rt_testbed r = true ->
+  (authorize spec_routes (testbed_served cfg) a q = Served <-> cfg_testbed cfg = true)
+  /\ (cfg_testbed cfg = false -> authorize spec_routes (testbed_served cfg) a q = NotFound).
+Proof. exact testbed_routes_iff_testbed_mode. Qed.
 
 (** Sanity of the hand-written specification. *)
 Theorem C13_spec_sane : forall r, In r spec_routes -> rt_gates r <> [] ->
@@ -144,3 +188,9 @@ Print Assumptions C13_spec_unambiguous.
 Print Assumptions C13_listing_filtered.
 Print Assumptions C13_listing_general_all_or_nothing.
 Print Assumptions C13_agrees_implies_ok.
+Print Assumptions C13_scoped_role_exact.
+Print Assumptions C13_scoped_role_case_sensitive.
+Print Assumptions C13_scoped_role_route_refused.
+Print Assumptions C13_scoped_listing_exact.
+Print Assumptions C13_testbed_served_is_testbed_mode.
+Print Assumptions C13_testbed_routes_iff_testbed_mode.
